@@ -189,6 +189,43 @@ def _worker(job):
 
 
 # ---------------------------------------------------------------------------
+def round_loop(f):
+    """the loop that runs the rounds: (counter phi, its latch value, loop) where the
+    counter is a header phi that starts from the first_round parameter (through
+    width changes), is advanced by exactly one per iteration, and is compared
+    with the constant 12 (in any predicate form) to leave the loop; None if no
+    such loop is found"""
+    first = f.params[1] if len(f.params) > 1 else None
+    for lp in f.d.get("loops", []):
+        if lp.get("depth") != 1:
+            continue
+        blocks = set(lp["blocks"])
+        hdr = f.bmap[lp["header"]]
+        for p in hdr.insts:
+            if p.op != "phi" or not p.ty.startswith("i"):
+                continue
+            latch = [v for v, pr in p.d["inc"] if pr in blocks]
+            init = [v for v, pr in p.d["inc"] if pr not in blocks]
+            if len(latch) != 1 or not init:
+                continue
+            inc = f.defs.get(latch[0]) if ir.is_local(latch[0]) else None
+            if inc is None or inc.op != "add" or inc.ops[0] != p.id or ir.const_int(inc.ops[1]) != 1:
+                continue
+            if not all(v == first or _is_cast_of(f, v, first) for v in init):
+                continue
+            # compared with 12 somewhere in the loop (possibly through casts)
+            names = {p.id}
+            for i in f.insts():
+                if i.block.name in blocks and i.op in ("zext", "sext", "trunc") and i.ops[0] in names:
+                    names.add(i.id)
+            cmp12 = any(i.op == "icmp" and i.block.name in blocks and
+                        ((i.ops[0] in names and ir.const_int(i.ops[1]) in (12, 11)) or
+                         (i.ops[1] in names and ir.const_int(i.ops[0]) in (12, 11))) for i in f.insts())
+            if cmp12:
+                return p, latch[0], lp
+    return None
+
+
 def rule_rounds(rep, m, cname):
     rid = "C08.D1"
     f = m.funcs.get("ascon_permute")
@@ -196,42 +233,13 @@ def rule_rounds(rep, m, cname):
         rep.notes.append("%s: ascon_permute is implemented in assembly (see C18.D5)" % cname)
         return
     rep.functions += 1
-    loops = f.d.get("loops", [])
-    if len(loops) != 1:
-        rep.unproved_item(rid, "%s: ascon_permute has %d loops (unrolled?); round-by-round proof not applicable" % (cname, len(loops)))
+    rl = round_loop(f)
+    if rl is None:
+        rep.unproved_item(rid, "%s: no loop of ascon_permute runs a counter from first_round in steps of one up to 12; "
+                          "round-by-round proof not applicable" % cname)
         return
-    lp = loops[0]
-    hdr = f.bmap[lp["header"]]
-    blocks = set(lp["blocks"])
-    # the round counter: the header phi feeding the exit test; its latch value is forced to the bound
-    t = hdr.term
-    cnt = None
-    bound = None
-    if t.op == "br" and t.ops:
-        c = f.defs.get(t.ops[0])
-        if c is not None and c.op == "icmp":
-            x = c.ops[0]
-            d = f.defs.get(x)
-            while d is not None and d.op in ("zext", "sext", "trunc"):
-                x = d.ops[0]
-                d = f.defs.get(x)
-            if d is not None and d.op == "phi" and d.block is hdr:
-                cnt = d
-                bound = ir.const_int(c.ops[1])
-    if cnt is None or bound != 12:
-        rep.unproved_item(rid, "%s: cannot identify the round counter of ascon_permute" % cname)
-        return
-    latch_vals = [v for v, p in cnt.d["inc"] if p in blocks]
-    init_vals = [v for v, p in cnt.d["inc"] if p not in blocks]
-    inc = f.defs.get(latch_vals[0]) if latch_vals and ir.is_local(latch_vals[0]) else None
-    step_ok = inc is not None and inc.op == "add" and inc.ops[0] == cnt.id and ir.const_int(inc.ops[1]) == 1
-    first = f.params[1]
-    init_ok = bool(init_vals) and (init_vals[0] == first or _is_cast_of(f, init_vals[0], first))
-    if not (step_ok and init_ok):
-        rep.violation(rid, "ascon_permute:loop-order", f.src,
-                      "the round loop of ascon_permute does not run the counter from first_round upwards in steps of one "
-                      "to 12 (start %s, step %s)" % (init_vals[:1], inc.d if inc else None), config=cname)
-        return
+    cnt, latch_val, lp = rl
+    latch_vals = [latch_val]
     rep.instance(rid, 1, {"config": cname, "loop": "round counter first_round..11 step 1", "scev_trip": lp.get("btc")})
     for r in range(12):
         mc = Machine(m)
